@@ -101,6 +101,9 @@ enum Twist {
     ExtraSettleHoliday(u16, i64),
     DropHoliday(u16, u16),
     Identity,
+    /// a masked weekday of one member is unmasked and every one of its dates in the range listed as
+    /// a holiday instead (a calendar imported as a list of closed dates): same behaviour
+    MaskAsHolidays(u16, bool),
 }
 
 fn twist() -> impl Strategy<Value = Twist> {
@@ -116,6 +119,7 @@ fn twist() -> impl Strategy<Value = Twist> {
         3 => (any::<u16>(), day()).prop_map(|(a, d)| Twist::ExtraSettleHoliday(a, d)),
         2 => (any::<u16>(), any::<u16>()).prop_map(|(a, b)| Twist::DropHoliday(a, b)),
         1 => Just(Twist::Identity),
+        1 => (any::<u16>(), any::<bool>()).prop_map(|(a, settle)| Twist::MaskAsHolidays(a, settle)),
     ]
 }
 
@@ -175,6 +179,30 @@ fn apply_twist(u: &UnionSpec, t: &Twist) -> UnionSpec {
                 c.hols.push(day);
             }
             v.members[k] = MemberSpec::Custom(c);
+        }
+        Twist::MaskAsHolidays(i, in_settle) => {
+            let unmask = |m: &MemberSpec| -> MemberSpec {
+                let mut c = to_custom(m);
+                if let Some(wd) = c.mask.pop() {
+                    let first = DAY_MIN + (wd as i64 - weekday(DAY_MIN) as i64).rem_euclid(7);
+                    let mut z = first;
+                    while z <= day_max() {
+                        c.hols.push(z);
+                        z += 7;
+                    }
+                }
+                MemberSpec::Custom(c)
+            };
+            match (&mut v.settle, *in_settle) {
+                (Some(s), true) if !s.is_empty() => {
+                    let k = pick(*i, s.len());
+                    s[k] = unmask(&s[k]);
+                }
+                _ => {
+                    let k = pick(*i, v.members.len());
+                    v.members[k] = unmask(&v.members[k]);
+                }
+            }
         }
         Twist::AddAll => v.members.push(MemberSpec::Builtin("all".into())),
         Twist::SettleNoneVsEmpty => {
@@ -432,6 +460,10 @@ impl Property for C06 {
                 v.label(if expected { "equality:equal" } else { "equality:unequal" });
                 v.label(intern(format!("equality:{}=={}", a.kind().trim_start_matches("cal:").split('+').next().unwrap(), b.kind().trim_start_matches("cal:").split('+').next().unwrap())));
                 v.nt(serde_json::to_string(a).ok() != serde_json::to_string(b).ok());
+                // equal behaviour although a weekday is a working day by the mask on one side only
+                // (its dates are then all listed as holidays there)
+                let first_week_differs = (DAY_MIN..DAY_MIN + 7).any(|z| ca.is_weekday(&day_to_ndt(z)) != cb.is_weekday(&day_to_ndt(z)));
+                v.label_if(expected && first_week_differs, "equality:equal-with-different-week-masks");
                 for (x, y, dir) in [(&ca, &cb, "a==b"), (&cb, &ca, "b==a")] {
                     match catch(|| lib_eq(x, y)) {
                         Ok(None) => {}
@@ -460,13 +492,14 @@ impl Property for C06 {
     }
 
     fn rule(&self) -> String {
-        "random (combination spec | valid name string | invalid string | equality pair). Combinations: 1-3 members and None / empty / 1-2 settlement calendars, members arbitrary (any week mask, holidays anywhere in 1970-2200 incl. its first and last day, clustered runs) or built-in; every case is compared on EVERY date 1970-01-01..2200-12-31 with the all/any model of its parts. Names: 1-3 built-in names, optional '|' + 1-2 names, random letter case; invalid strings: unknown token, empty token, stray space, >= 2 pipes. Equality pairs are constructed behaviourally equal but structurally different (members permuted / duplicated / split, holiday on a masked weekday, 'all' added, None vs empty settlement list, named vs explicit) or different on a single date (extra / dropped holiday, also only in a settlement calendar, also on the first/last day of the range); expected value = the harness's own full-range comparison of business and settlement days. Non-trivial: >= 2 members or a settlement list; a multi-part name; any invalid string; structurally different equality operands.".into()
+        "random (combination spec | valid name string | invalid string | equality pair). Combinations: 1-3 members and None / empty / 1-2 settlement calendars, members arbitrary (any week mask, holidays anywhere in 1970-2200 incl. its first and last day, clustered runs) or built-in; every case is compared on EVERY date 1970-01-01..2200-12-31 with the all/any model of its parts. Names: 1-3 built-in names, optional '|' + 1-2 names, random letter case; invalid strings: unknown token, empty token, stray space, >= 2 pipes. Equality pairs are constructed behaviourally equal but structurally different (members permuted / duplicated / split, holiday on a masked weekday, a masked weekday replaced by the list of all its dates as holidays, 'all' added, None vs empty settlement list, named vs explicit) or different on a single date (extra / dropped holiday, also only in a settlement calendar, also on the first/last day of the range); expected value = the harness's own full-range comparison of business and settlement days. Non-trivial: >= 2 members or a settlement list; a multi-part name; any invalid string; structurally different equality operands.".into()
     }
 
     fn floors(&self, tier: Tier) -> Vec<Floor> {
         let n = tier.pick(4_000u64, 200_000);
         vec![
             Floor { label: "equality:equal", min: n / 10 },
+            Floor { label: "equality:equal-with-different-week-masks", min: n / 500 },
             Floor { label: "equality:unequal", min: n / 20 },
             Floor { label: "union:with-settlement", min: n / 10 },
             Floor { label: "named:with-settlement", min: n / 20 },
